@@ -1236,6 +1236,12 @@ func main() {
 		for _, k := range []string{"fiber_ctx_recycled", "fasthttp_ctx_recycled_across_connections", "fasthttp_ctx_reused_on_connection",
 			"overwrite_path_longer", "overwrite_path_shorter", "overwrite_path_equal", "overwrite_body_longer", "overwrite_body_shorter", "overwrite_body_equal",
 			"retained_value_checks", "anchors_checked", "cross_config_comparisons"} {
+			if c[k] == 0 && k == "fiber_ctx_recycled" {
+				// an implementation that never recycles its contexts is allowed (the property then holds trivially for that
+				// mechanism); the fasthttp-level reuse counters below still have to be non-zero
+				r.Note("fiber contexts were never recycled on this tree: the fiber-level pooling mechanism does not exist here")
+				continue
+			}
 			if c[k] == 0 {
 				core.Fatal("vacuous exploration: mechanism counter %s is 0", k)
 			}
